@@ -8,6 +8,7 @@ From Verif Require Import Lib.Params Lib.Words Lib.NumberTheory Model.FfgLimbs
   Proofs.FfgArith Proofs.FfgMont Proofs.FfgOps Proofs.FfgRoutinesEq.
 From Verif Require Proofs.GapField.
 From Verif Require Gen.FfgRoutines.
+From Verif Require Lib.Words Lib.GoGlue Gen.FfGlue Gen.FfgGlue Proofs.FfGlueEq Proofs.FfgGlueEq Model.FfLimbs Model.FfgLimbs Model.FfConv Model.FfgConv.
 Local Open Scope Z_scope.
 
 Theorem C09_add : forall x y, canon x -> canon y ->
@@ -106,6 +107,21 @@ Proof. exact GapField.ffg_div_by_zero. Qed.
 Theorem C09_modinv_is_ModInverse : forall v, 0 <= v < pg -> GapField.big_ModInverse v v pg = modinv v.
 Proof. exact GapField.ffg_modinv_models_ModInverse. Qed.
 
+(* ---- the element-level GLUE of the Go source (loops, calls, math/big conversions): tools/limbgen
+   re-translates these functions at every run (Gen/FfGlue.v, Gen/FfgGlue.v: a Go loop becomes a
+   fixpoint on its iteration count or on explicit fuel); each equals the model used above ---- *)
+Theorem C09_glue_is_the_source :
+  FfgGlue.One = FfgLimbs.one /\
+  (forall x e, 0 <= e -> FfgGlue.Element_Exp x e = FfgLimbs.exp x e) /\
+  (forall x, Words.u64 x -> FfgGlue.Element_Inverse x = FfgLimbs.inverse x) /\
+  (forall x y, Words.u64 y -> FfgGlue.Element_Div x y = FfgLimbs.div x y) /\
+  (forall z, FfgGlue.Element_Halve z = FfgLimbs.halve z) /\
+  (forall a, FfgGlue.BatchInvert a = FfgLimbs.batchInvert a).
+Proof.
+  exact (conj FfgGlueEq.gen_One_eq (conj FfgGlueEq.gen_Exp_eq (conj FfgGlueEq.gen_Inverse_eq
+        (conj FfgGlueEq.gen_Div_eq (conj FfgGlueEq.gen_Halve_eq FfgGlueEq.gen_BatchInvert_eq))))).
+Qed.
+
 Print Assumptions C09_model_is_the_source.
 Print Assumptions C09_mul.
 Print Assumptions C09_add.
@@ -116,3 +132,4 @@ Print Assumptions C09_setUint64.
 Print Assumptions C09_halve.
 Print Assumptions C09_div_by_zero.
 Print Assumptions C09_modinv_is_ModInverse.
+Print Assumptions C09_glue_is_the_source.
